@@ -41,6 +41,18 @@ CHECKS = {
                 note="reference semantics of appendix B; 'unspecified' cases (negative indices, undefined operands) excluded and counted; "
                      "quantum hooks and wait polling are harness overrides of no-op/abstract methods",
                 ref="3/C04"),
+    "C05": dict(cat="exploration", tech="bounded-exhaustive enumeration of host-program ASTs x flush placements x measurement-outcome scripts; real SDK-to-controller pipeline vs direct evaluation",
+                text="Host programs are ASTs over the SDK constructs (if_eq/ne/lt/ge/ez/nz as context and callback, loop as context and "
+                     "loop_body incl. start/step, foreach, enumerate, loop_until with at-most exit, add on futures/registers with and "
+                     "without modulus, measurement into new futures / array slots / registers, arrays with initial values). All "
+                     "single statements to nesting depth 2, all pairs from a reduced pool and all triples from a small pool, times "
+                     "every subset of flush gaps, every feasible measurement-outcome script and three initial arrays, are built "
+                     "with the real SDK, compiled, serialised, deserialised and executed on the real controller, and compared "
+                     "with direct evaluation of the AST on the ordered gate/measurement trace, controller arrays and registers "
+                     "after each flush, and the host-side value of every live Future/RegFuture/Array handle after each flush.",
+                note="programs beyond the size/nesting bound and SDK usages outside the grammar are not covered; quantum hooks of the "
+                     "controller are harness code (exact state vector); one open known finding (ret_reg of a never-written register)",
+                ref="3/C05"),
     "C07": dict(cat="exploration", tech="exhaustive enumeration of gates x placements x all 65536 angle operands through the real transpiler; exact matrix comparison with independent operator semantics",
                 text="Every accepted vanilla gate is run through the real NVSubroutineTranspiler for every qubit placement "
                      "(electron id 0, carbons 1..3; all 12 ordered pairs for CNOT/CPHASE; MOV in both directions), every rotation "
